@@ -10,8 +10,11 @@ Streams
   state     real fitted models of the four families: object attributes -> state literal -> Coq computes to_doc ->
             compared with the implementation's to_json(); reloaded attributes vs from_doc
   itself    implementation against itself (the statement's observe_at): predict before / after from_json(to_json())
-            bit-identical on three reporting sets incl. temperatures outside the fitted range, from_json(js).to_json() == js,
-            timezone / warnings / disqualification lists equal — on every synthetic document and every real fit
+            bit-identical on reporting sets incl. a whole year of days (every month x weekday cell) and temperatures outside
+            the fitted range, from_json(js).to_json() == js, timezone / warnings / disqualification lists equal — on every
+            real fit and on every synthetic document, where the original is a model made by the profile's real constructor
+            plus the stored parameters (it never went through from_dict); plus a routing oracle: every day of the year is
+            predicted by the sub-model the STORED season / weekday maps assign
 The oracle is the statement, literally (c01lib.oracle_roundtrip + the documented formula evaluated from the JSON
 parameters alone)."""
 import json
@@ -288,7 +291,7 @@ def main():
             corpus = os.path.join(vlib.VERIF, "corpus", "C01.json")
             if os.path.exists(corpus):
                 cases += json.load(open(corpus))
-            n = run.n(260, max(300, int(9000 * scale())))
+            n = run.n(200, max(300, int(9000 * scale())))
             for k in range(n):
                 cases.append(c01lib.gen_doc(run.rng, k, splits, corner=(k % 97 == 13)))
             for i, c in enumerate(cases):
